@@ -40,6 +40,15 @@ def fl(rows):
     return np.array([[float(v) for v in r] for r in rows], dtype=float)
 
 
+RATIOS = {}       # named comparison -> largest (deviation / tolerance) among passing comparisons (evidence: worst_ratio_to_tolerance)
+
+
+def ratio(name, val, tol):
+    if val <= tol:
+        RATIOS[name] = max(RATIOS.get(name, 0.0), float(val) / tol)
+    return val
+
+
 DEV = {}          # call site -> [largest deviation below 1e-4 (a passing comparison), number of deviations >= 1e-4]
 
 
@@ -570,7 +579,7 @@ def gmrf_precision(cuqi, P, n):
 
 # ----------------------------------------------------------------------------- the run
 def run(ctx):
-    DEV.clear()
+    DEV.clear(); RATIOS.clear()
     cuqi = import_cuqi()
     thorough = ctx.tier == "thorough"
     r = np.random.RandomState(ctx.seed + 606)
@@ -603,7 +612,7 @@ def run(ctx):
         + [well_posed(lambda: scaled_config(r, thorough)) for _ in range(n_scaled)]
     # first use of Gaussians stored as scipy.sparse matrices (own random stream: the configurations above are unchanged)
     r_sp = np.random.RandomState(ctx.seed + 6062)
-    n_sparse = 32 if not thorough else 56 * 4
+    n_sparse = 24 if not thorough else 56 * 4
     cfgs += [well_posed(lambda t=t: sparse_config(r_sp, thorough, t, ctx.seed)) for t in range(n_sparse)]
 
     records = []
@@ -681,6 +690,7 @@ def run(ctx):
     from harness.props.c06_uglaw import run_uglaw
     run_uglaw(ctx, cuqi, np.random.RandomState(ctx.seed + 6064), thorough)
     ctx.extra_cov["deviation_max_by_site"] = {k: v for k, v in sorted(DEV.items())}
+    ctx.extra_cov["worst_ratio_to_tolerance"] = dict(sorted(RATIOS.items()))
 
 
 def check_rto(ctx, rec):
@@ -723,7 +733,7 @@ def check_rto(ctx, rec):
                      "linear part of the affine map e -> step(e)")
         bad = True
     # leaf certificate: the factors handed over are square roots of the precisions the code derives
-    tol_leaf = TOL_IMPROPER if improper(cfg) else TOL_LEAF
+    tol_leaf = improper_tol(cfg, C) if improper(cfg) else TOL_LEAF
     if mcode is None or E(m, mcode) > tol_leaf or E(C, Ccode) > tol_leaf:
         ctx.disagree(key + ":sqrtprec-leaf", desc, "moments from the precisions", "moments from the factors handed to the sampler",
                      "sqrtprec / sqrtprecTimesMean are not square roots of the distribution's own precision")
@@ -750,15 +760,25 @@ def improper(cfg):
     return cfg["prior"]["type"] == "gmrf" and cfg["prior"]["bc"] != "zero"
 
 
+def improper_tol(cfg, C):
+    """periodic / neumann GMRF: the code factorises DᵀD + sqrt(eps)·I, i.e. the prior precision is perturbed by δ = prec·sqrt(eps)·I and the
+    posterior covariance C by about δ·C·C: relative deviation ≈ prec·sqrt(eps)·‖C‖₂.  Tolerance = 30 x that first-order bound (not below 1e-6)."""
+    try:
+        bound = float(cfg["prior"]["prec"]) * 1.4901161193847656e-08 * float(np.linalg.norm(np.asarray(C, dtype=float), 2))
+    except Exception:
+        bound = 0.0
+    return max(TOL_IMPROPER, 30.0 * bound)
+
+
 def oracle_rto(ctx, rec, key, desc, model, force=False):
     """the property on the implementation alone: documented posterior mean / covariance, state independence"""
     cfg = rec["cfg"]
-    tol_doc = TOL_IMPROPER if improper(cfg) else TOL
     rel = bool(rec.get("rel"))
     relerr = lambda a_, b_: _relerr(a_, b_, rel=rel)   # purely relative comparisons for the scaled configurations
     n = cfg["n"]
     m_impl, B_impl, e, xa, xb = rec["impl"]
     mdoc_f, Cdoc_f = doc_moments(cfg, rec["gmrfP"])
+    tol_doc = improper_tol(cfg, Cdoc_f) if improper(cfg) else TOL
     if model is not None and model["mdoc"] is not None:
         # the harness-side float evaluation and the model's exact evaluation of the documented moments must agree
         if relerr(mdoc_f, model["mdoc"]) > 1e-7 or relerr(Cdoc_f, model["Cdoc"]) > 1e-7:
@@ -773,6 +793,8 @@ def oracle_rto(ctx, rec, key, desc, model, force=False):
         if model is not None and model["mcode"] is not None and (relerr(m_impl, model["mcode"]) > TOL or relerr(B_impl @ B_impl.T, model["Ccode"]) > TOL):
             ctx.fail(key + ":code-moments", desc, model["mcode"].tolist(), m_impl.tolist(),
                      "draw is not even a draw of the posterior with covariance S Sᵀ")
+    nm_ = "rto-improper-gmrf" if improper(cfg) else ("rto-scaled" if rel else "rto")
+    ratio(nm_ + ":mean-vs-documented", _relerr0(m_impl, mdoc, rel), tol_doc); ratio(nm_ + ":cov-vs-documented", _relerr0(B_impl @ B_impl.T, Cdoc, rel), tol_doc)
     if relerr(m_impl, mdoc) > tol_doc:
         ctx.fail(key + ":mean", desc, np.asarray(mdoc).tolist(), m_impl.tolist(),
                  "offset of the RTO draw is not the posterior mean of the specified linear-Gaussian problem")
@@ -880,7 +902,8 @@ def run_large(ctx, cuqi, r, thorough):
         if relerr(m_impl, mdoc, rel=True) > TOL_LARGE:
             ctx.fail(key + ":mean", desc, mdoc[:6].tolist(), m_impl[:6].tolist(),
                      "offset of the RTO draw is not the posterior mean (dense parameter of dimension > 75)")
-        if relerr(B_impl @ B_impl.T, Cdoc, rel=True) > TOL_LARGE:
+        ratio("rto-large:mean", _relerr0(m_impl, mdoc, True), TOL_LARGE); ratio("rto-large:cov", _relerr0(B_impl @ B_impl.T, Cdoc, True), 3 * TOL_LARGE)
+        if relerr(B_impl @ B_impl.T, Cdoc, rel=True) > 3 * TOL_LARGE:     # (sum of squares of ~110 read-off columns: float noise up to ~3e-9 observed)
             ctx.fail(key + ":cov", desc, np.diag(Cdoc)[:6].tolist(), np.diag(B_impl @ B_impl.T)[:6].tolist(),
                      "B Bᵀ of the RTO draw is not the posterior covariance (dense parameter of dimension > 75)")
         pred = m_impl + B_impl @ e      # (a sum of ~110 read-off columns: compared to 10·TOL_LARGE)
